@@ -95,7 +95,14 @@ class Batch:
             return
         self.fcp = res.unwrap()
         try:
-            self.files = cpp.generate(CC.parse(self.text).unwrap(), self.dir)
+            tree = CC.parse(self.text).unwrap()
+            self.files = cpp.generate(tree, self.dir)
+            if bi % 2:
+                # every other batch is built from the SECOND generation out of one tree object (a generator
+                # that grows or reorders the caller's tree shows in the second output, not in the first)
+                self.files = cpp.generate(tree, self.dir)
+                self.case["built_from"] = "second generation from the same tree object"
+                run.count("second_generations_from_one_tree")
         except Exception as e:
             run.violation("C++ generation raised %s: %s" % (type(e).__name__, e), self.case)
             return
